@@ -57,12 +57,14 @@ const (
 	opSendRace  = 9  // n c x shape via pos: the same, while x's handshake on connection c of the SAME node completes inside the
 	//                forwarder's lookup (pos 0: right before the client-index read, 1: right before the conn_state read)
 	opAuthLost  = 13 // n c x shape: the handshake authenticates, but its response cannot be written (peer reset): NOT a successful handshake
+	opShutdown  = 14 // n: graceful shutdown of node n's SessionManager (Close()); the adapters' deferred CloseConnection calls follow as Close ops
+	opFault     = 15 // n on: node n's cloud control starts (1) / stops (0) failing EnsureClientOnline (a fault of a collaborator; outside C08's quantifier)
 	opSReg      = 10 // n c x ctl
 	opSUnreg    = 11 // n c
 	opSRefresh  = 12 // n c
 )
 
-var opName = map[int]string{0: "Connect", 1: "AuthOK", 2: "AuthFail", 3: "Kick", 4: "Heartbeat", 5: "Close", 6: "Tick", 7: "StaleSweep", 8: "Forward", 9: "ForwardRacingLogin", 13: "HandshakeResponseLost",
+var opName = map[int]string{0: "Connect", 1: "AuthOK", 2: "AuthFail", 3: "Kick", 4: "Heartbeat", 5: "Close", 6: "Tick", 7: "StaleSweep", 8: "Forward", 9: "ForwardRacingLogin", 13: "HandshakeResponseLost", 14: "NodeShutdown", 15: "CloudControlFault",
 	10: "Register", 11: "Unregister", 12: "Refresh"}
 
 type caseIn struct {
@@ -167,7 +169,21 @@ func (h *hookStore) SetNX(key string, v any, ttl time.Duration) (bool, error) {
 	return false, errors.New("no SetNX")
 }
 
+// cloud control as the SessionManager sees it, with an on/off fault on the heartbeat's runtime-state refresh
+type faultyCloud struct {
+	session.CloudControlAPI
+	fail bool
+}
+
+func (f *faultyCloud) EnsureClientOnline(clientID int64, nodeID, connID, ip, proto, version string) error {
+	if f.fail {
+		return errors.New("verif: cloud control unavailable")
+	}
+	return f.CloudControlAPI.EnsureClientOnline(clientID, nodeID, connID, ip, proto, version)
+}
+
 type world struct {
+	faults []*faultyCloud
 	hooks  []*hookStore
 	ctx    context.Context
 	cancel context.CancelFunc
@@ -212,6 +228,7 @@ func newWorld(backend string, nodes int, ttl time.Duration, withSessions bool) *
 	w.cloud = make([]*managers.BuiltinCloudControl, nodes+1)
 	w.states = make([]*repos.ClientStateRepository, nodes+1)
 	w.hooks = make([]*hookStore, nodes+1)
+	w.faults = make([]*faultyCloud, nodes+1)
 	var sharedMem *memory.Storage
 	var sharedHybrid *hybrid.Storage
 	switch backend {
@@ -260,7 +277,8 @@ func newWorld(backend string, nodes int, ttl time.Duration, withSessions bool) *
 			w.states[n] = repos.NewClientStateRepository(ctx, w.st[n])
 			w.auth[n] = &authHandler{cloud: w.cloud[n], node: nodeName(n)}
 			sm.SetAuthHandler(w.auth[n])
-			sm.SetCloudControl(session.NewCloudControlAdapter(w.cloud[n]))
+			w.faults[n] = &faultyCloud{CloudControlAPI: session.NewCloudControlAdapter(w.cloud[n])}
+			sm.SetCloudControl(w.faults[n])
 			sm.SetNodeID(nodeName(n))
 			w.hooks[n] = &hookStore{Storage: w.st[n]}
 			store := session.NewConnectionStateStore(w.hooks[n], nodeName(n), ttl)
@@ -319,6 +337,12 @@ func (w *world) apply(o []int, tr map[[2]int]*transport) bool {
 		err := w.sms[n].HandlePacket(&types.StreamPacket{ConnectionID: connName(c), Timestamp: time.Now(),
 			Packet: &packet.TransferPacket{PacketType: packet.Handshake, Payload: payload}})
 		return err != nil
+	case opShutdown:
+		_ = w.sms[n].Close()
+		return false
+	case opFault:
+		w.faults[n].fail = arg(o, 2) != 0
+		return false
 	case opAuthLost:
 		if t := tr[[2]int{n, arg(o, 2)}]; t != nil {
 			t.fail = true
@@ -495,6 +519,7 @@ type ghost struct {
 	reg      map[[2]int]int  // (node, conn) -> client, registered control connection (session: in the registry)
 	open     map[int]map[[2]int]bool // client -> (node, conn) authenticated as client and not yet closed
 	cur      map[int]*cur
+	rsOff    bool         // a cloud-control fault was injected: the runtime-state expectation is off for this history
 	rsSkip   map[int]bool // the runtime-state expectation is suspended (a handshake whose response was lost moved it: known finding, realauth mode)
 }
 
@@ -559,6 +584,20 @@ func (g *ghost) step(o []int, errFlag bool, now int) {
 		g.reg[[2]int{n, c}] = x
 		delete(g.rsSkip, x)
 		g.login(n, c, x, now)
+	case opShutdown:
+		// the registry is emptied (no cloud call); the connections are closed by the following Close ops
+		for k := range g.reg {
+			if k[0] == n {
+				for _, cu := range g.cur {
+					if cu.n == n && cu.c == k[1] {
+						cu.valid = false
+					}
+				}
+				delete(g.reg, k)
+			}
+		}
+	case opFault:
+		g.rsOff = true
 	case opAuthLost:
 		// not a successful handshake: nothing is registered for the lookup; the connection sits in the registry (authenticated
 		// by the auth handler) until it is closed
@@ -688,7 +727,7 @@ func (g *ghost) checkState(o []int, clients []int, rs [][][3]int) (string, strin
 	checked := 0
 	for xi, x := range clients {
 		cu := g.cur[x]
-		if x <= 0 || cu == nil || !cu.valid || g.rsSkip[x] {
+		if x <= 0 || cu == nil || !cu.valid || g.rsSkip[x] || g.rsOff {
 			continue
 		}
 		for m, row := range rs {
